@@ -111,6 +111,11 @@ func next(label, kind string) ndValue {
 		return v
 	}
 	load()
+	// entries of kind env-* record engine-side environment choices (random draws of the code
+	// under test, modelled faults): the native run has its own environment
+	for pos < len(vec) && len(vec[pos].Kind) > 4 && vec[pos].Kind[:4] == "env-" {
+		pos++
+	}
 	if pos >= len(vec) {
 		// beyond the recorded vector: the replay left the recorded path
 		Diverged = true
